@@ -78,7 +78,8 @@ def load_known():
                     p.split("=", 1) for p in line[6:].split() if "=" in p
                 )
                 pid, key = parts.get("property"), parts.get("key")
-                text = line[6:].strip()
+                text = " ".join(w for w in line[6:].split()
+                                if not w.startswith("property="))
                 known.setdefault(pid, {})[key] = text
     return known
 
